@@ -197,6 +197,16 @@ func (w *Worker) digest(alg string, key []*Term, isHmac bool, data []*Term) []*T
 		args = append(args, w.concatBytes(data))
 	}
 	t := w.tc.UF(name, 8*hashLen(alg), args...)
+	if w.smallGroup && !isHmac && w.smallExpBits > 0 && w.smallExpBits < t.W {
+		// small-group mode: hash-to-exponent values are modelled as small numbers
+		// (an arbitrary function into [0, 2^k)); collision-freeness is not assumed here
+		w.assertSilently(w.tc.Eq(w.tc.Extract(t, t.W-1, w.smallExpBits), w.tc.Const(t.W-w.smallExpBits, 0)))
+		bs := w.splitBytes(t)
+		for i := 0; i < len(bs)-(w.smallExpBits+7)/8; i++ {
+			bs[i] = w.tc.Const(8, 0)
+		}
+		return bs
+	}
 	w.ufInjective(name, t)
 	return w.splitBytes(t)
 }
